@@ -4,6 +4,7 @@ import XV.Model.Unmarshal
 import XV.Spec.Marshal
 import XV.Spec.Magic
 import XV.Model.Header
+import XV.Model.LoadOutcome
 import XV.Gen.Layouts
 namespace XV.Driver
 open XV XV.Model.Unmarshal
@@ -74,7 +75,20 @@ def headerDispatch (op : String) (args : List String) : Option String :=
       pure (match Model.Header.load headerTables data (nm == "1") with
         | .ok v t m p s sip pos => s!"ok {showNats v} {showOpt toString t} {m} {p} {showOpt toString s} {showOpt toString sip} {pos}"
         | .importError => "ImportError"
+        | .dropbox => "dropbox"
         | .escaped c => s!"escaped:{c}")
   | _, _ => none
 
+end XV.Driver
+
+namespace XV.Driver
+open XV XV.Model
+def outcomeDispatch (op : String) (args : List String) : Option String :=
+  match op, args with
+  | "x.loadmodule", [lim, h] => do
+      let limit ← parseNat lim; let data ← parseHex h
+      -- host magic 3531 (the harness's main host is 3.12): the native fast path is reported as such
+      pure (match Model.LoadOutcome.loadModule headerTables Gen.graal3Magics limit 3531 (fun _ => .escaped "native") data with
+        | .returned => "returned" | .importError => "ImportError" | .escaped c => s!"escaped:{c}")
+  | _, _ => none
 end XV.Driver
